@@ -18,7 +18,7 @@ RULE = ('sector/arc correspondence: Sector::points/contains, Arc::points (row bi
         '+-305, +-360 deg; diameters 0..60; stroke widths 0..12 all alignments, fill/stroke colours present or not; positions '
         '+-70 and +-2^20. Normals fed to the model come from the hook of the real code. search (implementation only): trig '
         'hypothesis |n - 1024 u| <= 3 and Union/Intersection/EntirePlane choice against f64 at every whole degree, all '
-        'whole-degree pairs and 1e5 (quick) / 2e7 (thorough) random f32 angles; |sweep| >= 360 deg -> EntirePlane and '
+        'whole-degree pairs, 1e5 (quick) / 2e7 (thorough) random f32 (start, sweep) pairs and (thorough) EVERY f32 bit pattern in +-1080 deg; the same on a second harness binary built with --features fixed_point (eps 10, plus a model correspondence batch with the normals of that build); |sweep| >= 360 deg -> EntirePlane and '
         'sector = circle, arc = ring; every sector/arc point within 1.5 px of the swept angle and every deeper circle point '
         'present, d up to 128.')
 PARTIAL = ['C18_sector_within_sweep / C18_sector_covers_sweep rest on the trig hypothesis (|normal - 1024*(rotated cos,sin)| <= eps), '
@@ -151,6 +151,23 @@ def cases(tier, rng):
     return out
 
 
+TOP = 0x44870000  # f32 bits of 1080.0
+
+
+def trig_bits(tier, rng, eps):
+    """with_angle for every f32 bit pattern in +-1080 deg (thorough) / 8 random windows of 2^18 patterns (quick)"""
+    out = []
+    if tier == 'quick':
+        for _ in range(8):
+            lo = rng.randrange(0, TOP - (1 << 18)) | (rng.randrange(2) << 31)
+            out.append(J('p_trig_bits', lo, lo + (1 << 18), eps))
+    else:
+        for sign in (0, 1 << 31):
+            for lo in range(0, TOP + 1, 1 << 24):
+                out.append(J('p_trig_bits', sign | lo, sign | min(lo + (1 << 24), TOP + 1), eps))
+    return out
+
+
 def search(tier, rng):
     out = []
     for lo in range(-1080, 1080, 120):
@@ -161,6 +178,7 @@ def search(tier, rng):
     for j in range(k):
         out.append(J('p_trig_rand', rng.randrange(1 << 48), per, EPS_MILLI))
         out.append(J('p_entire', rng.randrange(1 << 48), per // 2))
+    out += trig_bits(tier, rng, EPS_MILLI)
     # geometric reading of the property on the implementation
     for s in range(0, 360, 9 if tier == 'quick' else 2):
         for j, w in enumerate([-359, -270, -181, -180, -100, -54, -2, 0, 1, 33, 89, 90, 135, 179, 180, 200, 306, 355, 360, 720]):
@@ -201,6 +219,7 @@ def fixed_point_search(tier, rng):
     for j in range(k):
         lines.append(J('p_trig_rand', rng.randrange(1 << 48), per, EPS_MILLI_FP))
         lines.append(J('p_entire', rng.randrange(1 << 48), per // 2))
+    lines += trig_bits(tier, rng, EPS_MILLI_FP)
     for s in range(0, 360, 15 if tier == 'quick' else 3):
         for j, w in enumerate([-359, -270, -181, -180, -100, -54, -2, 1, 33, 89, 90, 135, 179, 180, 200, 306, 355, 360, 720]):
             lines.append(J('p_sec_within', 0, 0, [9, 24, 63, 128, 40][(s + j) % 5], D(s), D(w)))
